@@ -58,6 +58,7 @@ def daily_cases(draw, klass=None):
     c["partial_hours"] = draw(st.sampled_from([0, 0, 1, 2, 3, 11, 12, 13]))  # hourly feed: hours missing on some days
     c["partial_days"] = draw(hug(n)) if c["partial_hours"] else 0
     c["negative"] = draw(st.booleans())
+    c["neg_pos"] = draw(st.sampled_from(["third", "third", "last", "first"]))  # where the single negative reading sits
     c["zeros"] = draw(st.sampled_from([0, 0, 2, 40]))
     c["extreme"] = draw(st.booleans())
     # the daily class also takes sub-daily meter readings: a missing usage day then keeps 0, 10 or 12 of its 24 readings (half or
@@ -130,7 +131,8 @@ def build_daily(c):
         zero_at = [int(x) for x in rng.choice(np.setdiff1d(inner, mu), min(c["zeros"], len(inner) - len(mu)), replace=False)]
         obs_in[zero_at] = 0.0
     if c["negative"] and c["klass"] != "billing":
-        obs_in[n // 3] = -5.0 if not math.isnan(obs_in[n // 3]) else np.nan
+        j = {"third": n // 3, "last": n - 1, "first": 0}[c.get("neg_pos", "third")]
+        obs_in[j] = -5.0 if not math.isnan(obs_in[j]) else np.nan
     if c["extreme"]:
         j = n // 4
         if not math.isnan(obs_in[j]) and obs_in[j] > 0:
